@@ -575,7 +575,22 @@ def r12_7(chk, uc):
             kind = source(t) if t.key() not in objs else None
             if kind is not None and source(ta[1]) is not None and kind.split("-")[0] != source(ta[1]).split("-")[0] and own not in t.key():
                 others.add(kind)
+        # the comparison is an absolute one (|x - y| < atol): numpy.isclose / allclose add a relative tolerance of 1e-5 unless told otherwise,
+        # which snaps lengths of 25 A that differ by 2e-4 and angles that differ by 1e-3 degrees
+        rel = []
+        for t in list(ta[2]):
+            for c_ in find_atoms(t, lambda x: x[0] == "call" and call_name(x) in ("numpy.isclose", "numpy.allclose", "math.isclose")):
+                kw_ = dict(c_[3]) if len(c_) > 3 and c_[3] else {}
+                rt = kw_.get("rtol", kw_.get("rel_tol"))
+                if rt is None and call_name(c_) != "math.isclose" and len(c_[2]) > 2:
+                    rt = c_[2][2]
+                if call_name(c_) == "math.isclose" and rt is None:
+                    rel.append(f"{call_name(c_)} with its default rel_tol=1e-9")
+                elif rt is None or rt.const_value() is None or rt.const_value() != 0:
+                    rel.append(f"{call_name(c_)} with rtol={'1e-5 (default)' if rt is None else rt}")
         n += 1
+        chk.ob("R12.7", UC, q, f"entries of `{objs[own][0]}` are snapped together under an absolute tolerance only", not rel, node=e.node,
+               fingerprint=f"snap-abs:{source(ta[1])}:{n}", expected="abs(x - y) < atol, or isclose(x, y, rtol=0, atol=atol)", found=rel[:1])
         chk.ob("R12.7", UC, q, f"the entries of `{objs[own][0]}` are overwritten only with entries of `{objs[own][0]}`, selected by a comparison "
                f"among its own entries", not others, node=e.node, fingerprint=f"snap:{source(ta[1])}:{n}",
                expected=f"{objs[own][0]}[mask of {objs[own][0]}] = {objs[own][0]}[i]", found=f"{str(e.target)[:90]} = {str(e.value)[:40]} (uses {sorted(others)})")
